@@ -42,6 +42,12 @@ types, assume_specifications, spec functions, lemmas):
                                       //@lift.found| / //@lift.none| = proof lines (erased) at the two exits of that loop
   //@mapdefault <needle> | <V1, V2, ..>   (DESIGN 9.2 rule 18) in the statement that starts with <needle>, the k-th occurrence of
                                       `X.map(|p| EXPR).unwrap_or_default()` is read as `(match X { Vk(p) => EXPR, _ => Default::default() })` (Vk = Ok | Some)
+  //@sigsubst <from> | <to>          (DESIGN 9.2 rule 19) textual substitution in the SIGNATURE only: a parameter type Verus cannot express (a function pointer
+                                      type `fn(&mut World)`) is replaced by a named opaque stand-in type of the template; the call through it is then a //@dropstmt
+  //@mapor <needle>                  (DESIGN 9.2 rule 20) in the statement that starts with <needle>, every `X.map_or(None, |p| EXPR)` is read as
+                                      `(match X { Some(p) => EXPR, None => None })` (std: Option::map_or)
+  //@thunk <closure text> | <name> | <generics> | <turbofish> | <ret type>   (DESIGN 9.2 rule 21; contract with //@lift|) every occurrence of the argument-less closure
+                                      `|| EXPR` (given literally) in the body becomes the fn item `<name><turbofish>`, emitted as `fn <name><generics>() -> (r: <ret>) { EXPR }`
   //@okmap? <needle>                 (DESIGN 9.2 rule 15) the statement `E.ok().map(|p| CALL);` that starts with <needle> - value discarded - is read as
                                       `if let Ok(p) = E { CALL; }` (std: Result::ok + Option::map call the closure exactly when E is Ok, with its payload);
                                       skipped (recorded) when no such statement exists, e.g. because the code already uses `if let` / `let else`
@@ -487,6 +493,63 @@ def _mapdefault(body, needle, variants, fname):
     return body[:start] + stmt + body[end + 1:], infos
 
 
+def _mapor(body, needle, fname):
+    """Rule 20."""
+    rx = re.compile(r'\s*'.join(re.escape(tok) for tok in needle.split()))
+    start = None
+    for j, d in rc.code_positions(body):
+        if rx.match(body, j) and (j == 0 or not (body[j - 1].isalnum() or body[j - 1] == '_')):
+            start = j; break
+    if start is None:
+        raise CutError('fn %s: statement for mapor not found: %s' % (fname, needle))
+    infos, pos = [], start
+    while True:
+        m = re.compile(r'\.\s*map_or\s*\(\s*None\s*,\s*\|\s*([A-Za-z_][A-Za-z0-9_]*)\s*\|').search(body, pos)
+        if not m:
+            break
+        # receiver expression: back to the start of the postfix chain (identifier chars, dots, balanced parens/brackets, `&`, `::`, `<`, `>`)
+        i = m.start()
+        depth = 0
+        while i > 0:
+            c = body[i - 1]
+            if c in ')]': depth += 1
+            elif c in '([':
+                if depth == 0: break
+                depth -= 1
+            elif depth == 0 and not (c.isalnum() or c in '_.:&<>' ):
+                break
+            i -= 1
+        recv = body[i:m.start()].strip()
+        po = body.index('(', m.start())
+        pc = rc.match_close(body, po, '(', ')')
+        expr = body[m.end():pc].strip()
+        new = '(match %s { Some(%s) => %s, None => None })' % (recv, m.group(1), expr)
+        infos.append({'fn': fname, 'from': re.sub(r'\s+', ' ', body[i:pc + 1]), 'to': new})
+        lead = body[i:m.start()]
+        body = body[:i] + lead[:len(lead) - len(lead.lstrip())] + new + body[pc + 1:]
+        pos = i + len(new)
+        # only within the statement: stop at the first one unless more follow before the statement's end
+        break
+    if not infos:
+        raise CutError('fn %s: no `.map_or(None, |p| ..)` in statement %s' % (fname, needle))
+    return body, infos
+
+
+def _thunk(body, closure_text, name, turbofish, fname):
+    """Rule 21: replace every literal occurrence of `|| EXPR`."""
+    rx = re.compile(r'\s*'.join(re.escape(tok) for tok in closure_text.split()))
+    n, out, last = 0, [], 0
+    code = set(j for j, d in rc.code_positions(body))
+    for m in rx.finditer(body):
+        if m.start() not in code:
+            continue
+        out.append(body[last:m.start()]); out.append(name + turbofish); last = m.end(); n += 1
+    out.append(body[last:])
+    if n == 0:
+        raise CutError('fn %s: thunk `%s` not found' % (fname, closure_text))
+    return ''.join(out), n
+
+
 def _desugar_in_params(sig):
     """`In(pat) : In<T>` parameter => `verif_in : In<T>` + `let In(pat) = verif_in;` (Rust's own desugaring)."""
     lets = []
@@ -575,6 +638,7 @@ def expand(template_path, repo='/repo'):
         return cache[f]
 
     out = []
+    emitted_thunks = []
     side = {'template': os.path.basename(template_path), 'functions': [], 'types': [], 'dropped_statements': [],
             'dropped_derives': [], 'files': {}}
     i = 0
@@ -621,15 +685,25 @@ def expand(template_path, repo='/repo'):
             clauses, loops, loopvars, ghosts, dropstmts, c2e, loopbodies, atend, befores = [], {}, {}, [], [], [], {}, [], []
             lifts, lifted_out = [], []
             okmaps = []
+            sigsubsts = []
+            mapors, thunks = [], []
             mapdefaults = []
             loopends = {}
             while i + 1 < len(tpl) and (tpl[i + 1].strip().startswith('//@|') or tpl[i + 1].strip().startswith('//@loop')
                                         or tpl[i + 1].strip().startswith('//@ghost') or tpl[i + 1].strip().startswith('//@dropstmt') or tpl[i + 1].strip().startswith('//@atend') or tpl[i + 1].strip().startswith('//@before')
-                                        or tpl[i + 1].strip().startswith('//@continue_to_else') or tpl[i + 1].strip().startswith('//@loopend') or tpl[i + 1].strip().startswith('//@lift') or tpl[i + 1].strip().startswith('//@okmap') or tpl[i + 1].strip().startswith('//@mapdefault')):
+                                        or tpl[i + 1].strip().startswith('//@continue_to_else') or tpl[i + 1].strip().startswith('//@loopend') or tpl[i + 1].strip().startswith('//@lift') or tpl[i + 1].strip().startswith('//@sigsubst') or tpl[i + 1].strip().startswith('//@mapor') or tpl[i + 1].strip().startswith('//@thunk') or tpl[i + 1].strip().startswith('//@okmap') or tpl[i + 1].strip().startswith('//@mapdefault')):
                 i += 1
                 t = tpl[i].strip()
                 if t.startswith('//@|'):
                     clauses.append('        ' + t[4:].strip())
+                elif t.startswith('//@mapor'):
+                    mapors.append(t[len('//@mapor'):].strip())
+                elif t.startswith('//@thunk'):
+                    ct, nm, gen, tf, rt_ = [x.strip() for x in t[len('//@thunk'):].split(' | ', 4)]
+                    lifts.append({'kind': 'thunk', 'closure': ct, 'name': nm, 'generics': gen, 'turbofish': tf, 'ret': rt_, 'clauses': [], 'pre': [], 'post': [], 'inv': []})
+                elif t.startswith('//@sigsubst'):
+                    a_, b_ = t[len('//@sigsubst'):].split('|', 1)
+                    sigsubsts.append((a_.strip(), b_.strip()))
                 elif t.startswith('//@mapdefault'):
                     nd, vs = t[len('//@mapdefault'):].split('|', 1)
                     mapdefaults.append((nd.strip(), [x.strip() for x in vs.split(',')]))
@@ -717,12 +791,20 @@ def expand(template_path, repo='/repo'):
                 pass  # trait impl items carry no visibility
             elif not sig.startswith('pub fn'):
                 sig = re.sub(r'^' + rc.VIS, 'pub ', sig, count=1)
+            for a_, b_ in sigsubsts:
+                if a_ not in sig:
+                    raise CutError('fn %s: sigsubst: `%s` not in the signature' % (name, a_))
+                sig = sig.replace(a_, b_)
+                side.setdefault('signature_substitutions', []).append({'fn': name, 'from': a_, 'to': b_})
             if ret:
                 sig = _name_return(sig, ret)
             body, dropped = rc.drop_statements(fn['body'])
             for needle, rep in dropstmts:
                 body, what = _replace_statement(body, needle, rep, name)
                 side.setdefault('replaced_statements', []).append({'fn': name, 'dropped_sha256': hashlib.sha256(what.encode()).hexdigest()[:16], 'dropped_head': re.sub(r'\s+', ' ', what)[:120], 'replacement': rep})
+            for nd in mapors:
+                body, minfos = _mapor(body, nd, name)
+                side.setdefault('normalized_statements', []).extend(minfos)
             for nd, vs in mapdefaults:
                 body, minfos = _mapdefault(body, nd, vs, name)
                 side.setdefault('normalized_statements', []).extend(minfos)
@@ -749,6 +831,16 @@ def expand(template_path, repo='/repo'):
                 body = body[:ob + 1] + '\n' + '\n'.join(loopbodies[ordinal]) + body[ob + 1:]
             body = _insert_loop_invariants(body, loops, name, loopvars)
             for lf in lifts:
+                if lf.get('kind') == 'thunk':
+                    body, n_ = _thunk(body, lf['closure'], lf['name'], lf['turbofish'], name)
+                    expr_ = lf['closure'].strip()[2:].strip()
+                    if not any(('fn %s%s()' % (lf['name'], lf['generics'])) in x for x in emitted_thunks):
+                        emitted_thunks.append('fn %s%s()' % (lf['name'], lf['generics']))
+                        lifted_out.append('    pub fn %s%s() -> (r: %s)\n%s\n    { %s }' % (lf['name'], lf['generics'], lf['ret'], '\n'.join(lf['clauses']), expr_))
+                    side.setdefault('lifted_closures', []).append({'fn': name, 'lifted': lf['name'], 'captures': [], 'closure_sha256': hashlib.sha256(lf['closure'].encode()).hexdigest()[:16],
+                        'statement_head': lf['closure'], 'clauses': [c.strip() for c in lf['clauses']], 'file': f,
+                        'assumed': 'an argument-less closure without captures is the function item with the same body (%d occurrence(s))' % n_})
+                    continue
                 if lf.get('kind') == 'position':
                     body, texts, linfo = _lift_position(body, sig, lf['needle'], lf['name'], lf['elem'], lf['extra'], lf['clauses'], lf['pred'], lf['inv'], name, anchor != '-', lf.get('found', []), lf.get('none', []))
                     lifted_out += texts
